@@ -5,7 +5,7 @@ import Momo.Model.Probe
   Source mirrored (include/momo/HashSet.h unless said otherwise):
     pvFind (both overloads)            -> findGen / findTable
     pvAddNogrow                         -> addNogrow
-    pvAddGrow, pvGetNewLogBucketCount   -> addGrow / newLog
+    pvAddGrow, pvGetNewLogBucketCount   -> add (branch pvAddGrow) / growLog / newLog
     pvAdd                               -> add
     pvRemove (+ Bucket::Remove)         -> removeAt (swap-with-last inside the bucket)
     pvRelocateItems (3 overloads)       -> relocate / relocGens / drainGen
@@ -216,8 +216,25 @@ structure Faults where
   relocStop : Option Nat := none
 deriving Repr, Inhabited
 
-inductive Outcome | ok | full | badAlloc
+/-- `invalid` = a `MOMO_CHECK` of the operation fails (`std::invalid_argument` in exception mode): only the check
+    `nextCapacity > newCapacity` of `pvAddGrow` (HashSet.h:1140) is modelled -/
+inductive Outcome | ok | full | badAlloc | invalid
 deriving DecidableEq, Repr, Inhabited
+
+/-- the sizing loop of `pvAddGrow` (HashSet.h:1132-1142): starting at `nl` (= `pvGetNewLogBucketCount()`), the bucket count is
+    doubled while `CalcCapacity(2^nl) <= mCount` (a table that is overloaded after refused growths can hold more items than the
+    next size is meant for); `MOMO_CHECK(nextCapacity > newCapacity)` inside the loop: `none`.
+    The C++ loop has no bound of its own; every completed round raises the capacity by at least one, so the loop leaves after at
+    most `count + 1` rounds: `fuel = count + 2` never runs out before the loop condition has become false (`growLoop_fuel`). -/
+def growLoop (sp : Spec) (count : Nat) : Nat → Nat → Option Nat
+  | 0, nl => some nl
+  | fuel+1, nl =>
+    if capacityOf sp nl ≤ count then
+      if capacityOf sp nl < capacityOf sp (nl + 1) then growLoop sp count fuel (nl + 1) else none
+    else some nl
+
+/-- the log2 of the bucket count `pvAddGrow` asks `Buckets::Create` for -/
+def growLog (sp : Spec) (t : Table) : Option Nat := growLoop sp t.count (t.count + 2) (newLog sp t)
 
 /-- drain one generation into `head`, oldest bucket index first, each bucket from its last item;
     stops when the budget `stop` is used up. Returns (head', remaining part of g, moved, stopped) -/
@@ -274,15 +291,17 @@ def add (sp : Spec) (hf : Nat → Nat) (t : Table) (it : Item) (f : Faults) : Ta
   let (t1, out) :=
     if t.count < t.cap then addHead t
     else
-      -- pvAddGrow
-      let nl := newLog sp t
-      if f.refuseGrow then
-        if sp.overloadIfCannotGrow && !t.gens.isEmpty then addHead t else (t, .badAlloc)
-      else if f.refuseAdd then (t, .badAlloc)
-      else
-        match addNogrowGen sp (emptyGen sp nl) h it with
-        | none => (t, .full)
-        | some (g', _) => ({ gens := g' :: t.gens, count := t.count + 1, cap := capacityOf sp nl }, .ok)
+      -- pvAddGrow: the sizing loop with its check comes first, then `Buckets::Create`
+      match growLog sp t with
+      | none => (t, .invalid)
+      | some nl =>
+        if f.refuseGrow then
+          if sp.overloadIfCannotGrow && !t.gens.isEmpty then addHead t else (t, .badAlloc)
+        else if f.refuseAdd then (t, .badAlloc)
+        else
+          match addNogrowGen sp (emptyGen sp nl) h it with
+          | none => (t, .full)
+          | some (g', _) => ({ gens := g' :: t.gens, count := t.count + 1, cap := capacityOf sp nl }, .ok)
   match out with
   | .ok => if t1.gens.length > 1 then (relocate sp hf t1 f.relocStop, .ok) else (t1, .ok)
   | _ => (t1, out)
